@@ -18,6 +18,7 @@ The module describes main system functions for working with objects.
 import itertools
 
 from yaql.language import contexts
+from yaql.language import expressions
 from yaql.language import specs
 from yaql.language import utils
 from yaql.language import yaqltypes
@@ -357,8 +358,19 @@ def call_func(context, engine, name, args, kwargs, receiver=utils.NO_VALUE):
         yaql> call(let, [1, 2], {a => 3, b => 4}) -> $1 + $a + $2 + $b
         10
     """
+    def as_data(value):
+        # arguments of call() are data. A callable that was not produced by
+        # yaql itself (a host function, class or callable object found in
+        # the data) must not be invoked when it lands in a lazily evaluated
+        # parameter: pass it as a constant, which evaluates to itself
+        if callable(value) and not hasattr(value, '__unwrapped__'):
+            return expressions.Constant(value)
+        return value
+
+    kwargs = utils.filter_parameters_dict(kwargs)
     return context(name, engine, receiver)(
-        *args, **utils.filter_parameters_dict(kwargs))
+        *[as_data(t) for t in args],
+        **{key: as_data(value) for key, value in kwargs.items()})
 
 
 def register(context, delegates=False):
